@@ -11,13 +11,13 @@ pub static DEF: CheckDef = CheckDef {
     id: "C07",
     run,
     replay,
-    rule: "complete product IF (32) x IE (32) x master enable (off, on, EI-pending) x run state (running, halted, stopped) x 64 stack pointers (0x0000/0x0001/0x0002 so that a push lands on IE, 0xFF10/0xFF11 on IF, 0x2001/0x4001/0x6001 on bank registers, both sides of every region boundary, I/O registers with side effects: DIV, DMA, STAT, LCDC) x PC values (all 256 high bytes when the high-byte push lands on IE or IF, all 256 low bytes when the low-byte push does, 4 otherwise), poked into two identical machines; one calls Core::handle_interrupt, the other is driven by the reference dispatch model (models::irq) through its bus. Compared: run state, master enable, PC, SP (as full 32-bit fields), charged cycles, IF, IE, the ordered list of bus writes (hook) and the complete machine state. IF and IE are also written with their unused upper bits set (only sources 0-4 exist). Second pass: the same product on 6 stack pointers reached through update(), run_interp() and run_code_block(). Third pass: proptest states with arbitrary SP/PC. Non-trivial = states with a pending enabled source; classes: two or more pending, masked only, cancelled by the push, woken from HALT/STOP, push on IE / IF / bank register.",
+    rule: "complete product IF (32) x IE (32) x master enable (off, on, EI-pending) x run state (running, halted, stopped) x 64 stack pointers (0x0000/0x0001/0x0002 so that a push lands on IE, 0xFF10/0xFF11 on IF, 0x2001/0x4001/0x6001 on bank registers, both sides of every region boundary, I/O registers with side effects: DIV, DMA, STAT, LCDC) x PC values (all 256 high bytes when the high-byte push lands on IE or IF, all 256 low bytes when the low-byte push does, 4 otherwise), poked into two identical machines; one calls Core::handle_interrupt, the other is driven by the reference dispatch model (models::irq) through its bus. Compared: run state, master enable, PC, SP (as full 32-bit fields), charged cycles, IF, IE, the ordered list of bus writes (hook) and the complete machine state. IF and IE are also written with their unused upper bits set (only sources 0-4 exist). Second pass: the same product on 6 stack pointers reached through update(), run_interp() and run_code_block(). Third pass: proptest states with arbitrary SP/PC. Fourth pass (the five machine cycles are really charged): for every non-empty IF x 4 handler shapes x 4 (IE, halted?, SP, PC) settings, after handle_interrupt() has dispatched, the handler's first step is run by update() of the interpreter build, as a block of the interpreter build and as a translated block of the jit build; the clocks delivered to the devices by that step (hook: running total; the divider) must be 4 x (5 + the machine cycles of the instructions executed, per models::sm83), last_block_cycle_length must say the same and no cycles may remain pending. Non-trivial = states with a pending enabled source; classes: two or more pending, masked only, cancelled by the push, woken from HALT/STOP, push on IE / IF / bank register.",
     assumptions: &[
         "models::irq (dispatch sequence from the CPU documentation: high byte pushed first, source chosen after the high-byte push, five machine cycles)",
         "when the low-byte push itself lands on IF the order of that write and the acknowledge is not prescribed: both resulting IF values are accepted",
         "bus side effects of the two pushes are produced by the repository's own bus on the twin machine (address decode is C10's subject)",
     ],
-    required_classes: &["two-or-more-pending", "masked-only", "cancelled", "woken-halt", "woken-stop", "push-on-ie", "push-on-if", "push-on-bank-register", "ime-off-pending", "via-update", "via-run_interp", "via-run_code_block", "generated-state", "unused-bits-set-in-both"],
+    required_classes: &["two-or-more-pending", "masked-only", "cancelled", "woken-halt", "woken-stop", "push-on-ie", "push-on-if", "push-on-bank-register", "ime-off-pending", "via-update", "via-run_interp", "via-run_code_block", "generated-state", "unused-bits-set-in-both", "dispatch-cycles-reach-devices", "after-dispatch-jit-block"],
     exhaustive: true,
 };
 
@@ -292,6 +292,81 @@ fn exec(p: &mut Pair, c: &Case, rec: &mut Rec, counting: bool, full: bool) -> Ca
     verdict
 }
 
+/// Fourth pass: the five machine cycles of a dispatch must reach the devices. After
+/// handle_interrupt() has dispatched, the handler's first step is run in one of three ways
+/// (0: update() of the interpreter build, 1: a block of the interpreter build, 2: a translated
+/// block of the jit build) and the clocks delivered by that step must be 4 x (5 + the machine
+/// cycles of the instructions executed), as the reference machine computes them.
+fn after_dispatch(if_: u8, ie: u8, halted: bool, sp: u16, pc: u16, handler: u8, mode: u8) -> CaseResult {
+    use crate::mach::j;
+    use crate::refmach::RefMachine;
+    let mut rom = std_rom();
+    rom.bytes[0x100..0x104].copy_from_slice(&[0x00, 0xc3, 0x50, 0x01]);
+    for v in 0..5usize {
+        let code: &[u8] = match handler % 4 {
+            0 => &[0x3c, 0xc9],             // INC A; RET
+            1 => &[0xd9],                   // RETI
+            2 => &[0xf5, 0x3c, 0xf1, 0xd9], // PUSH AF; INC A; POP AF; RETI
+            _ => &[0x00, 0x00, 0x00, 0xc9], // three NOPs; RET
+        };
+        rom.bytes[0x40 + 8 * v..0x40 + 8 * v + code.len()].copy_from_slice(code);
+    }
+    let mut boxed: Box<dyn Emu> = if mode == 2 { Box::new(j::M::new(&rom)) } else { Box::new(i::M::new(&rom)) };
+    let a: &mut dyn Emu = &mut *boxed;
+    let mut t = i::M::new(&rom);
+    for m in [&mut *a as &mut dyn Emu, &mut t as &mut dyn Emu] {
+        m.write(0xffff, ie);
+        m.write(0xff0f, if_);
+        m.set_ime(IME_ENABLED);
+        m.set_run_state(if halted { HALTED } else { RUN });
+        m.set_regs(&Regs { af: 0x12b0, bc: 0x3456, de: 0x789a, hl: 0xbcde, sp: sp as u32, pc: pc as u32, cycles: 0 });
+    }
+    if let Err(m) = guarded(|| a.handle_interrupt()) {
+        return Err(Fail::new("panic", format!("interrupt handling panicked: {}", m)));
+    }
+    // reference: the dispatch, then one step with the five cycles carried over
+    let mut cpu = IrqCpu { pc, sp, ime: Ime::Enabled, run: if halted { Run::Halt } else { Run::Run }, cycles: 0 };
+    let out = dispatch(&mut cpu, &mut Twin { m: &mut t });
+    if !matches!(out, IrqOutcome::Dispatched { .. }) || cpu.cycles != 5 {
+        return Ok(());
+    }
+    let ra = a.regs();
+    if ra.cycles != 5 || ra.pc != cpu.pc as u32 {
+        return Err(Fail::new("cycles-dispatch", format!("after the dispatch {} machine cycles are pending and PC = {:#06x}; expected 5 and {:#06x}", ra.cycles, ra.pc, cpu.pc)));
+    }
+    t.set_regs(&Regs { af: 0x12b0, bc: 0x3456, de: 0x789a, hl: 0xbcde, sp: cpu.sp as u32, pc: cpu.pc as u32, cycles: 5 });
+    t.set_ime(IME_DISABLED);
+    t.set_run_state(RUN);
+    let mut r = RefMachine::new(t);
+    let info = if mode == 0 { r.step_instruction() } else { r.step_block(1000) };
+    let div0 = a.scalars().iter().find(|(n, _)| *n == "divider").map(|x| x.1).unwrap_or(0);
+    let before = a.clocks_total();
+    let res = guarded(|| if mode == 0 { a.step_update() } else { a.step_block() });
+    if let Err(m) = res {
+        return Err(Fail::new("panic", format!("the handler's first step panicked: {}", m)));
+    }
+    let delta = a.clocks_total().wrapping_sub(before);
+    let div1 = a.scalars().iter().find(|(n, _)| *n == "divider").map(|x| x.1).unwrap_or(0);
+    let mname = ["update() of the interpreter build", "a block of the interpreter build", "a translated block of the jit build"][mode as usize % 3];
+    if delta != info.clocks {
+        return Err(Fail::new("dispatch-cycles-lost", format!("the handler's first step ({}, {} machine cycles of instructions) delivered {} clocks to the devices; with the five machine cycles of the dispatch it must deliver {}", mname, info.instr_cycles, delta, info.clocks)));
+    }
+    if (div1.wrapping_sub(div0)) & 0xffff != delta & 0xffff {
+        return Err(Fail::new("dispatch-cycles-lost", format!("the divider advanced by {} clocks over the handler's first step ({}), {} were delivered", div1.wrapping_sub(div0) & 0xffff, mname, delta)));
+    }
+    if a.regs().cycles != r.regs().cycles {
+        return Err(Fail::new("cycles-after-handler-step", format!("{} machine cycles are pending after the handler's first step ({}), expected {}", a.regs().cycles, mname, r.regs().cycles)));
+    }
+    if mode != 0 && a.last_block_cycles() as u64 * 4 != info.clocks {
+        return Err(Fail::new("dispatch-cycles-lost", format!("last_block_cycle_length = {} after the handler's first block ({}), expected {} (5 + {})", a.last_block_cycles(), mname, info.clocks / 4, info.instr_cycles)));
+    }
+    Ok(())
+}
+
+fn after_json(if_: u8, ie: u8, halted: bool, sp: u16, pc: u16, handler: u8, mode: u8) -> Value {
+    json!({"kind": "after-dispatch", "if": if_, "ie": ie, "halted": halted, "sp": sp, "pc": pc, "handler": handler, "mode": mode})
+}
+
 fn sp_list() -> Vec<u16> {
     let mut v: Vec<u16> = vec![
         0x0000, 0x0001, 0x0002, 0xff10, 0xff11, 0x2001, 0x2002, 0x4001, 0x6001, 0x8000, 0x8001, 0x8002, 0xa000, 0xa001, 0xa002, 0xc000, 0xc001, 0xc002, 0xd000, 0xd001, 0xd002, 0xe000, 0xe001, 0xe002,
@@ -384,6 +459,27 @@ fn run(rec: &mut Rec) {
         }
     }
     rec.exhaustive_part("IF (32) x IE (32) x master enable (3) x run state (3) x the listed stack pointers and PC sets, direct and through update/run_interp/run_code_block");
+    // fourth pass: the dispatch's five machine cycles reach the devices with the handler's first step
+    for item in 0..(32 * 4 * 3) as usize {
+        if !rec.ctx.mine(item) || rec.too_many() {
+            continue;
+        }
+        let (if_, handler, mode) = ((item % 32) as u8, ((item / 32) % 4) as u8, (item / 128) as u8);
+        if if_ == 0 {
+            continue;
+        }
+        for (ie, halted, sp, pc) in [(0x1fu8, false, 0xdff0u16, 0x0150u16), (if_, true, 0xfffe, 0x4123), (0x1f, false, 0xc002, 0xc123), (if_ | 1, true, 0xdff0, 0x0151)] {
+            let case = after_json(if_, ie, halted, sp, pc, handler, mode);
+            rec.current(&case.to_string());
+            rec.eval(1);
+            rec.class("dispatch-cycles-reach-devices", 1);
+            rec.class(["after-dispatch-update", "after-dispatch-interpreter-block", "after-dispatch-jit-block"][mode as usize % 3], 1);
+            rec.nontrivial_direct(1);
+            if let Err(f) = after_dispatch(if_, ie, halted, sp, pc, handler, mode) {
+                rec.violation(&format!("{}-mode{}", f.sig, mode), case, f.detail);
+            }
+        }
+    }
     // third pass: generated states
     let cases = rec.ctx.tier.pick(20_000u32, 2_000_000);
     let strat = (prop_oneof![3 => 0u8..32, 1 => any::<u8>()], any::<u8>(), 0u8..3, 0u8..3, any::<u16>(), any::<u16>(), 0u8..4);
@@ -414,6 +510,15 @@ fn run(rec: &mut Rec) {
 
 fn replay(case: &Value, rec: &mut Rec) {
     let g = |k: &str| case.get(k).and_then(|v| v.as_u64()).unwrap_or(0);
+    if case.get("kind").and_then(|k| k.as_str()) == Some("after-dispatch") {
+        let halted = case.get("halted").and_then(|v| v.as_bool()).unwrap_or(false);
+        rec.eval(1);
+        rec.current(&case.to_string());
+        if let Err(f) = after_dispatch(g("if") as u8, g("ie") as u8, halted, g("sp") as u16, g("pc") as u16, g("handler") as u8, g("mode") as u8) {
+            rec.violation(&format!("{}-mode{}", f.sig, g("mode")), case.clone(), f.detail);
+        }
+        return;
+    }
     let c = Case { if_: g("if") as u8, ie: g("ie") as u8, ime: g("ime") as u8, run: g("run_state") as u8, sp: g("sp") as u16, pc: g("pc") as u16, path: g("path") as u8 };
     let mut p = new_pair();
     rec.eval(1);
